@@ -129,14 +129,14 @@ class IdentityTransform(BaseTransform):
         return copy_array(x, xp=self.xp)
 
     def forward(self, x):
-        return copy_array(x, xp=self.xp), self.xp.zeros(
-            len(x), device=get_device(x)
-        )
+        # Convert first so that the device is the one of the output array
+        # (the input may come from another namespace, e.g. numpy)
+        y = copy_array(x, xp=self.xp)
+        return y, self.xp.zeros(len(y), device=get_device(y))
 
     def inverse(self, y):
-        return copy_array(y, xp=self.xp), self.xp.zeros(
-            len(y), device=get_device(y)
-        )
+        x = copy_array(y, xp=self.xp)
+        return x, self.xp.zeros(len(x), device=get_device(x))
 
 
 class CompositeTransform(BaseTransform):
